@@ -4,6 +4,7 @@ import CapyV.Driver.C03
 import CapyV.Driver.C27
 import CapyV.Driver.C22
 import CapyV.Driver.C23
+import CapyV.Driver.Core
 open CapyV.Driver
 
 def dispatch (line : String) : String :=
@@ -14,6 +15,7 @@ def dispatch (line : String) : String :=
   | "C27" :: args => c27 args
   | "C22" :: args => c22 args
   | "C23" :: args => c23 args
+  | "CORE" :: args => core args
   | _ => "bad-op"
 
 partial def loop (h : IO.FS.Stream) (out : IO.FS.Stream) : IO Unit := do
